@@ -261,11 +261,17 @@ def gen_case(rng, tier, i):
         else:
             top = rng.randint(200, 520)
         if N == 2:
-            counts = [S, max(1, top - S) if top else rng.choice([252, 253, 254, 255, 256, 257, 258])]
+            counts = [S, max(1, top - S) if top else rng.choice([252, 253, 254, 254, 254, 255, 256, 257, 258])]
         else:
             c2 = rng.randint(20, 60)
-            counts = [S, c2, max(1, top - c2) if top else rng.choice([252, 253, 254, 255, 256, 257, 258])]
+            counts = [S, c2, max(1, top - c2) if top else rng.choice([252, 253, 254, 254, 254, 255, 256, 257, 258])]
         mode = rng.choice(["exact", "exact", "missing_suffix"])
+        if rng.random() < 0.3:
+            # the largest offset of the whole trie is exactly the maximum of the narrowest storage type
+            counts[-1] = 254
+            if N == 3:
+                counts[1] = min(counts[1], 250)
+            mode = "exact"
     elif cls == "deep_narrow":
         # order 4, every pair of adjacent levels fits 8-bit offsets, but absolute positions do not
         V = rng.randint(10, 60)
@@ -294,6 +300,15 @@ def gen_case(rng, tier, i):
         # the nodes at risk are the highest-order entries allocated last: query many of them
         B, T, p_top = 4, rng.randint(6, 14 if big else 7), 0.95
     hist = gen_hist(rng, table, V, sos, T, B, explicit_sos=(cls == "explicit_sos_hist"), p_top=p_top)
+    if cls in ("width255", "deep_narrow") and rng.random() < 0.6:
+        # sweep: every listed highest-order n-gram is looked up through its own context, all in one call (the nodes
+        # whose bookkeeping sits next to a level boundary are few, random histories rarely land on them)
+        ctx = sorted({tuple(e[0][:-1]) for e in table[-1] if all(0 <= t < V for t in e[0][:-1])})
+        if ctx:
+            rng.shuffle(ctx)
+            ctx = ctx[:320]
+            B, T = len(ctx), N - 1
+            hist = [list(c) for c in ctx]
     if dead is not None:
         # every history of the call ends in a listed context that ends in the dead-end token
         B, T = rng.choice([1, 1, 2, 3]), rng.randint(N - 1, 7)
@@ -337,6 +352,7 @@ LARGE_KINDS = [
     ("big_bigram_actual_gt_32767", 200, 2), ("big_trigram_gt_32767", 36, 3),
     ("wide_vocab_int16_ids", 300, 2), ("big_bigram_potential_256", 200, 2),
     ("big_bigram_actual_gt_255", 120, 2), ("big_trigram_mid_32767", 40, 3),
+    ("big_bigram_offset_exactly_32767", 200, 2),
 ]
 
 
@@ -350,6 +366,8 @@ def gen_large(rng, j):
     S = V + (0 if 0 <= sos < V else 1)
     if name == "big_bigram_fits_int16":
         counts = [S, 32767 + 1 - S]  # max potential offset == 32767
+    elif name == "big_bigram_offset_exactly_32767":
+        counts = [S, 32766]  # the level's closing offset (#bigrams + 1) is the int16 maximum itself
     elif name == "big_bigram_potential_32768":
         counts = [S, 32768 + 1 - S]  # one more: built as int32, shrunk afterwards
     elif name == "big_bigram_actual_gt_32767":
@@ -365,9 +383,17 @@ def gen_large(rng, j):
     else:
         counts = [S, rng.randint(1200, 1600), 32768 - rng.randint(0, 3)]
     mode = "missing_suffix" if (j // len(kinds)) % 2 == 1 else "exact"
+    if name == "big_bigram_offset_exactly_32767":
+        mode = "exact"
     table = gen_table(rng, V, sos, N, mode, counts)
     B, T = rng.randint(2, 3), rng.randint(4, 7)
     hist = gen_hist(rng, table, V, sos, T, B)
+    if name == "big_bigram_offset_exactly_32767" or rng.random() < 0.3:
+        # sweep: one look-up per in-vocabulary context of the highest order, all in one call
+        ctx = sorted({tuple(e[0][:-1]) for e in table[-1] if all(0 <= t < V for t in e[0][:-1])})
+        rng.shuffle(ctx)
+        ctx = ctx[:320]
+        B, T, hist = len(ctx), N - 1, [list(c) for c in ctx]
     return {
         "class": "large_" + name, "sos_kind": kind, "V": V, "sos": sos, "N": N, "table": table,
         "T": T, "B": B, "hist": hist, "idx": gen_idx(rng, T, B)[:2],
